@@ -102,6 +102,8 @@ NewEndpoint(cfg, isn, rnxt0, pwnd0, now) ==
       txCount  |-> 0, rxCount |-> 0, synAcks |-> 0, lastRxAt |-> now, lastWire |-> now,
       trans    |-> [on |-> FALSE, st |-> "", t |-> "syn", ackSyn |-> FALSE, ackFin |-> FALSE, seqNext |-> FALSE],
                               \* the packet being processed and the state it met (C17.Transition)
+      segd     |-> 0,          \* bytes in the sender's segment queue at the end of the last poll
+      peerLied |-> FALSE,      \* the peer acknowledged a sequence number that was never transmitted
       finDesig |-> -1,         \* the number the endpoint designated for its answering FIN when it took the peer's FIN in
       eofDue   |-> 0,          \* the peer's FIN was taken in while a read was waiting (trace line)
       lastDataRxAt |-> -1,     \* when the last DATA / FIN packet was taken in
@@ -156,7 +158,10 @@ R_SegStable(e, s, runs, alts, amb, plen) ==
     Known(e, s) =>
         LET g == e.segs[s] IN
         \/ RunIs(runs, alts, amb, g.off, g.len) /\ plen = g.len
+        \* "only a never-acknowledged size probe may be split": a probe the sender gave up is cut again at the
+        \* current segment size - usually shorter; longer when the segment size has grown meanwhile
         \/ (~g.sacked /\ (g.probe \/ g.popped) /\ plen < g.len /\ RunIs(runs, alts, amb, g.off, plen))
+        \/ (~g.sacked /\ g.popped /\ plen > g.len /\ RunIs(runs, alts, amb, g.off, plen))
 
 \* C01 "nothing is lost, duplicated, reordered": a new sequence number continues the stream where
 \* its predecessor ended and carries only bytes the application has written
@@ -167,7 +172,7 @@ R_SegContiguous(e, s, runs, alts, amb, plen) ==
 
 R_NoGarbage(runs) == NoGarbage(runs)
 
-IsSplit(e, s, plen) == Known(e, s) /\ plen < e.segs[s].len
+IsSplit(e, s, plen) == Known(e, s) /\ (plen < e.segs[s].len \/ (e.segs[s].popped /\ plen > e.segs[s].len))
 IsRetx(e, s) == D(s, e.nxt) < 0       \* a sequence number that was transmitted before
 
 \* C06 "A segment the peer has acknowledged (cumulatively or selectively) is never retransmitted"
@@ -178,7 +183,7 @@ R_C06_Cap(e, s) == Known(e, s) => e.segs[s].cnt <= e.cfg.max_retx + 1    \* on t
 TxData(e, s, pos, plen, now) ==
     IF Known(e, s)
     THEN LET g == e.segs[s]
-             split == plen < g.len
+             split == plen < g.len \/ (g.popped /\ plen > g.len)
              g2 == [g EXCEPT !.cnt = IF split THEN 1 ELSE @ + 1, !.last = now,
                              !.len = plen, !.lost = FALSE, !.counted = TRUE,
                              !.ver = IF split THEN @ + 1 ELSE @, !.popped = FALSE,
